@@ -51,4 +51,42 @@ def refuted (eqs : List (List Dag × Dag)) (e u : Box) (vars : List Nat) (zs : L
   zs.any (fun q => refutedOutside eqs e u vars q) ||
   zs.any (fun p => zs.any fun q => refutedTwo eqs e vars p q)
 
+/-! ### certificates without a known zero -/
+
+/-- degenerate finite interval -/
+def isPoint : Itv → Bool
+  | .mk (.fin a) (.fin b) => a == b
+  | _ => false
+
+def pointConstsDag (d : Dag) : Bool :=
+  d.toList.all fun n => match n.k with | .const vs => vs.all isPoint | _ => true
+
+/-- no interval ("thick") constant in the system: its real semantics is a function -/
+def pointConsts (progs : List (List Dag × Dag)) : Bool :=
+  progs.all fun p => p.1.all pointConstsDag && pointConstsDag p.2
+
+/-- CERTIFICATE (any system): existence certificate (Krawczyk test) on a box `x` with `x ⊆ e` that has the
+    parameter ranges of `e`, uniqueness certificate on `u`, `e ⊆ u` -/
+def certifiedBy (eqs : List (List Dag × Dag)) (e u : Box) (vars : List Nat) (x : Box) : Bool :=
+  pointConsts eqs && Newton.existCertVars eqs x vars && Box.subset x e && Box.subset e u &&
+  Newton.uniqueCertVars eqs u vars && x.length == e.length &&
+  ((List.range e.length).all fun i => vars.contains i ||
+    (match x[i]?, e[i]? with | some a, some b => Itv.subset b a | _, _ => false))
+
+/-- candidate boxes for the existence certificate: `e` itself and `e` shrunk around its midpoint on the
+    variables `vars` by the factors 1/2, 1/4, ... (an untrusted search; each candidate is checked) -/
+def shrink (e : Box) (vars : List Nat) (k : Nat) : Box :=
+  e.zipIdx.map fun (q : Itv × Nat) =>
+    if vars.contains q.2 then
+      match q.1 with
+      | .mk (.fin a) (.fin b) =>
+        let m := (a + b) / 2
+        let r := (b - a) / 2 / (2 ^ k : Nat)
+        .mk (.fin (m - r)) (.fin (m + r))
+      | I => I
+    else q.1
+
+def findCert (eqs : List (List Dag × Dag)) (e u : Box) (vars : List Nat) (tries : Nat) : Option Nat :=
+  (List.range tries).find? fun k => certifiedBy eqs e u vars (shrink e vars k)
+
 end Ibex.Verdict
